@@ -16,6 +16,9 @@ Verdict(e) ==
          ELSE IF e.max_want # -1 /\ e.accepted # Min2(Max2(e.max_want, e.pre), e.tried) THEN "profile_cardinality_not_enforced_under_strict"
          ELSE IF e.max_want = -1 /\ e.accepted < e.tried THEN "profile_allows_repetition_but_strict_refused"
          ELSE "ok"
+    \* a component whose datatype the profile replaces by another complex one: <field>_<j>_<k> designates the k-th part
+    \* of the PROFILE's datatype
+    [] e.k = "pos" -> IF e.got # e.want THEN "positional_path_does_not_follow_the_profile_datatype" ELSE "ok"
     [] e.k = "same" -> IF e.with # e.without THEN "restated_profile_changes_behaviour" ELSE "ok"
     [] e.k = "exc" -> IF e.got # e.want THEN "wrong_exception_for_unusable_profile" ELSE "ok"
 Init == l = 1 /\ nontriv = 0 /\ failed = 0
